@@ -5,6 +5,8 @@
 //! fixed point), accessor-by-accessor comparison of the lazy `vcf::Record` with the eager
 //! `RecordBuf`, and a span function written from the rule in the property statement.
 
+mod hdr_reader;
+
 use gvcf::{
     cmp::{FloatMode, diff_rec},
     gen_::{self, BASE_NAMES, BASE_SAMPLES, Env, FILE_FORMATS, IdxMode, N_BASES, Purpose},
@@ -752,6 +754,48 @@ fn main() {
             },
         );
         ctx.add_distinct(op_cases.len() as u64, op_cases.len() as u64);
+        // (7) header_reader(): the raw header through every Read / BufRead call style and source
+        ctx.rule(
+            "header_reader(): 5 headers (minimal, 2 samples, rich, 400-byte line, 40 samples) x followed by 0/1/2 records x 7 \
+             sources (slice, 4 chunked BufRead window patterns, 2 interrupting) x call style (read with every destination \
+             size 1..=longest line+1, read_to_end, read_to_string, bytes(), io::copy, fill_buf+consume all / fill_buf twice / partial \
+             {1,2,3,7,20}, read_until, read_line, lines()): raw bytes == written header text, parse(raw) == header, the \
+             reader then yields exactly the records",
+        );
+        let hcases = hdr_reader::header_cases();
+        // flat index: (header, tail, source, method)
+        let mut hr_cases: Vec<(usize, usize, usize, hdr_reader::Method)> = Vec::new();
+        for (hi, c) in hcases.iter().enumerate() {
+            for m in hdr_reader::methods(c.n) {
+                for tail in 0..c.tails.len() {
+                    for src in 0..hdr_reader::SOURCES.len() {
+                        hr_cases.push((hi, tail, src, m));
+                    }
+                }
+            }
+        }
+        ctx.sweep(
+            "header_reader_io",
+            hr_cases.len() as u64,
+            |i| {
+                let (hi, tail, src, m) = hr_cases[i as usize];
+                format!(
+                    "header={} ({} bytes, text = vcf::io::Writer output of {:?}) followed by {} record(s); source={}; call style {:?}",
+                    hcases[hi].name,
+                    hcases[hi].text.len(),
+                    if hcases[hi].text.len() < 400 { String::from_utf8_lossy(&hcases[hi].text).into_owned() } else { format!("gvcf header model {}", hcases[hi].name) },
+                    tail,
+                    hdr_reader::SOURCES[src],
+                    m
+                )
+            },
+            |i| {
+                let (hi, tail, src, m) = hr_cases[i as usize];
+                hdr_reader::run_case(&hcases[hi], tail, src, m)
+            },
+        );
+        ctx.add_distinct(hr_cases.len() as u64, hr_cases.len() as u64);
+
         ctx.extra(
             "writer_reject_sequences_reasons",
             vmc::json!({
